@@ -143,6 +143,31 @@ CHECKS = {
              "outside [0,2pi)): samples.t_ref, get_orbit(i).radial_velocity(t)+offset = M(theta)x, and mll = ln p(y|theta,x) + ln p(x|theta) - ln N(x|a,A) to 1e-6.",
         note="Survey calibration offsets are removed from the data by the check; ill-conditioned (tiny-error) shapes are left to C01.",
     ),
+    "C07": dict(
+        engine=E1, category="exploration", design="§4 C07",
+        technique="exhaustive enumeration of the product of unit assignments (prior parameters, P0, data, library columns) for 9 base problems; metamorphic comparison with the canonical twin on the real kernel",
+        text="Every unit assignment (512 quick / 1728 thorough per base problem) of 9 base problems is evaluated in memory and through the "
+             "cache-file path: Delta lnL = -N ln(unit ratio), identical accepted set under scripted uniforms placed 20 % away from every ratio, "
+             "physically equal (a, A) and returned columns; deviations are attributed to the open finding K3 only through its twin.",
+        note="astropy conversions trusted; the canonical twin itself is validated by C01.",
+    ),
+    "C09": dict(
+        engine=E1, category="exploration", design="§4 C09",
+        technique="exhaustive enumeration of parameterisations x evaluation grids (inside / at / outside the support) against closed-form densities; scripted-uniform inverse-CDF lattice; sampler-parameter graphs on a (P,e) grid; per-row constancy of ln_prior minus declared log-densities",
+        text="Log-densities of UniformLog, the Kipping Beta priors and FixedCompanionMass over 72 parameterisations are compared with scipy closed "
+             "forms (-inf outside); UniformLog draws are the inverse CDF on a 65-point u lattice; the K sampler's scale graph equals the capped rule "
+             "on a grid straddling the cap; prior.sample(return_logprobs=True) rows must have ln_prior equal to the declared joint log-density up to "
+             "one constant. Distributional claims are reduced to these enumerable parts plus trust in numpy's samplers.",
+        note="No statistical test is run (not in this family). numpy / pymc_ext samplers trusted.",
+    ),
+    "C11": dict(
+        engine=E1, category="exploration", design="§4 C11",
+        technique="exhaustive enumeration of 72 (24 quick) prior/unit/jitter/offset configurations x parameter grid on the compiled pymc model (RVs replaced by values) against the reference Kepler/design-matrix model and declared densities",
+        text="For each configuration setup_mcmc is called (1 or 5 samples, foreign column units) and model_rv, ln_likelihood and "
+             "logp(jacobian=False) are evaluated on 12 points: equality with M(theta)x, with the Gaussian data term, and of log-density "
+             "differences with declared prior + Gaussian term; mcmc_init is the median-period sample in the prior's units.",
+        note="pymc/pytensor graph evaluation trusted; angles entered as unit vectors.",
+    ),
 }
 NOT_YET = {}
 
